@@ -848,3 +848,231 @@ pub fn gen_c14(r: &mut Rng) -> (String, Sim) {
     );
     (class, sim)
 }
+
+// ---------------------------------------------------------------------------
+// C11: announce contents on boundary clocks
+
+pub fn gen_c11(r: &mut Rng) -> (String, Sim) {
+    let mut icfg = rand_inst_cfg(r);
+    icfg.slave_only = false;
+    icfg.quality.0 = *r.pick(&[248u8, 255, 187, 248, 6]);
+    let np = 2 + r.below(2) as usize;
+    let cfgs: Vec<PortCfg> = (0..np)
+        .map(|_| {
+            let mut c = rand_port_cfg(r);
+            c.acceptable = None;
+            c.master_only = false;
+            c
+        })
+        .collect();
+    let mut sim = Sim::new(icfg, cfgs);
+    let mut w = World::new(r, &sim, 3);
+    let own = sim.icfg.clock_identity;
+    w.masters[0].ann.prio1 = 10;
+    w.masters[1].ann.prio1 = 20;
+    let mut kinds = std::collections::BTreeSet::new();
+    // other ports become master by timeout
+    for p in 1..np {
+        sim.step(Ev::AnnounceReceiptTimer(p));
+    }
+    let n = 15 + r.below(30);
+    for _ in 0..n {
+        let p = r.below(np as u64) as usize;
+        let ev = match r.below(14) {
+            0..=4 => {
+                // announce from master 0 (mostly on port 0) with changing contents
+                let m = if r.chance(4, 5) { 0 } else { 1 + r.below(2) as usize };
+                let port = if r.chance(4, 5) { 0 } else { p };
+                if r.chance(1, 3) {
+                    let ms = &mut w.masters[m];
+                    ms.flags = [0, r.below(64) as u8];
+                    ms.ann.utc_offset = r.range(-100, 100) as i16;
+                    ms.ann.time_source = *r.pick(&[0x10u8, 0x20, 0xa0, 0x33, 0xfe, 0xff]);
+                    ms.ann.steps = match r.below(6) {
+                        0 => 254,
+                        1 => 255,
+                        2 => 65535,
+                        _ => r.below(6) as u16,
+                    };
+                    ms.ann.class = *r.pick(&[6u8, 7, 13, 248]);
+                    ms.ann.accuracy = *r.pick(&[0x20u8, 0x21, 0xfe, 0x31]);
+                    ms.ann.variance = r.next() as u16;
+                    ms.ann.prio2 = r.next() as u8;
+                    ms.ann.gm = if r.chance(1, 2) { ms.clock } else { 0x0900_0000_0000_0009 };
+                    kinds.insert("change");
+                }
+                let mut suffix = Vec::new();
+                if r.chance(1, 5) {
+                    let mut v = Vec::new();
+                    for j in 0..r.below(4) {
+                        let id: u64 = if r.chance(1, 6) { own } else { 0x7100_0000_0000_0000 + j };
+                        v.extend_from_slice(&id.to_be_bytes());
+                    }
+                    suffix = tlv(8, &v);
+                    kinds.insert("path");
+                }
+                let f = w.announce_frame(m, &suffix);
+                Ev::RecvGeneral(port, f)
+            }
+            5..=7 => Ev::Bmca,
+            8..=10 => Ev::AnnounceTimer(p),
+            11 => {
+                kinds.insert("quality");
+                Ev::SetClockQuality((
+                    *r.pick(&[248u8, 6, 127, 255, 100]),
+                    *r.pick(&[0xfeu8, 0x21, 0x25]),
+                    r.next() as u16,
+                ))
+            }
+            12 => {
+                // master 1 becomes the best: take-over
+                w.masters[1].ann.prio1 = 5;
+                kinds.insert("takeover");
+                let f = w.announce_frame(1, &[]);
+                Ev::RecvGeneral(p, f)
+            }
+            _ => Ev::AnnounceReceiptTimer(p),
+        };
+        if !sim.step(ev) {
+            break;
+        }
+        w.observe(&sim);
+    }
+    let anns = sim
+        .results
+        .iter()
+        .map(|x| x.matches("AResetAnnounceTimer").count())
+        .sum::<usize>();
+    let class = format!(
+        "c11:{}:a{}:{}:{}",
+        if sim.panicked { "panic" } else { "ok" },
+        anns.min(9),
+        kinds.iter().cloned().collect::<Vec<_>>().join("+"),
+        w.visited.iter().cloned().collect::<Vec<_>>().join("")
+    );
+    (class, sim)
+}
+
+// ---------------------------------------------------------------------------
+// C06: foreign master qualification and expiry
+
+pub fn gen_c06(r: &mut Rng) -> (String, Sim) {
+    let steady = r.chance(1, 4);
+    let mut icfg = rand_inst_cfg(r);
+    icfg.prio1 = 128;
+    if steady {
+        icfg.slave_only = false;
+        icfg.quality.0 = 248;
+    }
+    let np = if steady { 1 } else { 1 + r.below(2) as usize };
+    let cfgs: Vec<PortCfg> = (0..np)
+        .map(|_| {
+            let mut c = rand_port_cfg(r);
+            if steady {
+                c.master_only = false;
+                c.acceptable = None;
+            }
+            c
+        })
+        .collect();
+    let mut sim = Sim::new(icfg, cfgs);
+    let nm = if steady { 1 } else { *r.pick(&[1usize, 2, 3, 3, 9]) };
+    let mut w = World::new(r, &sim, nm.max(1));
+    // distinct identities for up to 9 masters
+    for (k, m) in w.masters.iter_mut().enumerate() {
+        m.clock = 0x0a00_0000_0000_0000 + ((k as u64 + 1) << 8) + 1;
+        m.ann.gm = m.clock;
+        if m.ann.steps >= 255 && k == 0 {
+            m.ann.steps = 1;
+        }
+    }
+    if steady {
+        w.masters[0].ann.prio1 = 10;
+        w.masters[0].ann.steps = r.below(4) as u16;
+        w.masters[0].seq = *r.pick(&[65530u16, 65534, 7, 32765]);
+    }
+    let mut kinds = std::collections::BTreeSet::new();
+    let horizon = 8 + r.below(12); // bmca runs
+    'outer: for _ in 0..horizon {
+        if steady {
+            let f = w.announce_frame(0, &[]);
+            if !sim.step(Ev::RecvGeneral(0, f)) {
+                break;
+            }
+        } else {
+            // every master is present or absent in this interval
+            for m in 0..nm {
+                let present = match m {
+                    0 => r.chance(3, 4),
+                    _ => r.chance(1, 2),
+                };
+                if !present {
+                    kinds.insert("gap");
+                    continue;
+                }
+                let port = r.below(np as u64) as usize;
+                let mut f = w.announce_frame(m, &[]);
+                match r.below(10) {
+                    0 => {
+                        // stale sequence id
+                        let s = w.masters[m].seq.wrapping_sub(3);
+                        f[30..32].copy_from_slice(&s.to_be_bytes());
+                        kinds.insert("stale");
+                    }
+                    1 => {
+                        kinds.insert("dup");
+                        if !sim.step(Ev::RecvGeneral(port, f.clone())) {
+                            break 'outer;
+                        }
+                    }
+                    2 => {
+                        // jump far ahead (wrap logic)
+                        w.masters[m].seq = w.masters[m].seq.wrapping_add(40000);
+                        kinds.insert("jump");
+                    }
+                    _ => {}
+                }
+                if !sim.step(Ev::RecvGeneral(port, f)) {
+                    break 'outer;
+                }
+                w.observe(&sim);
+            }
+            if r.chance(1, 10) {
+                let p = r.below(np as u64) as usize;
+                kinds.insert("timeout");
+                if !sim.step(Ev::AnnounceReceiptTimer(p)) {
+                    break;
+                }
+            }
+            if r.chance(1, 12) {
+                // announce with own clock identity from port 1 (multiport rule)
+                let own = sim.icfg.clock_identity;
+                let h = w.hdr(ANNOUNCE, own, 1, 5);
+                let a = w.masters[0].ann.clone();
+                let p = r.below(np as u64) as usize;
+                kinds.insert("own");
+                if !sim.step(Ev::RecvGeneral(p, frame(&h, &announce_body(&a), &[]))) {
+                    break;
+                }
+            }
+        }
+        // phase: sometimes two runs in a row, sometimes none
+        let runs = if steady { 1 } else { *r.pick(&[1u64, 1, 1, 2, 0]) };
+        for _ in 0..runs {
+            if !sim.step(Ev::Bmca) {
+                break 'outer;
+            }
+            w.observe(&sim);
+        }
+    }
+    let class = format!(
+        "c06:{}:{}:nm{}:np{}:{}:{}",
+        if steady { "steady" } else { "pattern" },
+        if sim.panicked { "panic" } else { "ok" },
+        nm,
+        np,
+        kinds.iter().cloned().collect::<Vec<_>>().join("+"),
+        w.visited.iter().cloned().collect::<Vec<_>>().join("")
+    );
+    (class, sim)
+}
